@@ -11,12 +11,14 @@ class MultiIndexConverter(Transformer):
     def __init__(self):
         super().__init__()
         self.modified_dimensions = []
+        self.feature_dimensions = []
         self.coords_from_fit = {}
         self.coords_from_transform = {}
 
     def get_serialization_attrs(self) -> dict:
         return dict(
             modified_dimensions=self.modified_dimensions,
+            feature_dimensions=self.feature_dimensions,
             coords_from_fit=self.coords_from_fit,
             coords_from_transform=self.coords_from_transform,
         )
@@ -34,6 +36,8 @@ class MultiIndexConverter(Transformer):
             if isinstance(index, pd.MultiIndex):
                 self.coords_from_fit[dim] = X.coords[dim]
                 self.modified_dimensions.append(dim)
+                if feature_dims is not None and dim in feature_dims:
+                    self.feature_dimensions.append(dim)
 
         return self
 
@@ -46,6 +50,24 @@ class MultiIndexConverter(Transformer):
             self.coords_from_transform[dim] = X_transformed.coords[dim]
 
             index = X_transformed.indexes[dim]
+            if dim in self.feature_dimensions:
+                # The labels of a feature dimension are replaced by positions below,
+                # so they must be those of the fitted data, in the fitted order
+                index_fit = self.coords_from_fit[dim].to_index()
+                if not index.equals(index_fit):
+                    same_labels = (
+                        index.size == index_fit.size
+                        and index.is_unique
+                        and index.isin(index_fit).all()
+                    )
+                    if not same_labels:
+                        raise ValueError(
+                            f"Cannot transform data. Coordinates of dimension {dim} "
+                            "differ from the ones used for fitting."
+                        )
+                    X_transformed = X_transformed.sel({dim: index_fit})
+                    self.coords_from_transform[dim] = X_transformed.coords[dim]
+                    index = X_transformed.indexes[dim]
             X_transformed = X_transformed.drop_vars(dim)
             X_transformed.coords[dim] = range(index.size)
 
